@@ -109,6 +109,30 @@ def fieldval(v, pt):
     return float(e)
 
 
+SKIPPED = {'float_range': 0}
+
+
+def float_range_risk(sol, pt):
+    """True when some power / exponential sub-term of the extracted fields leaves the comfortable range of IEEE doubles at this point
+    (|value| > 1e140 or < 1e-140): the real (float) evaluation may overflow, underflow to 0 or produce inf/inf = NaN there although the
+    real-number value is finite (assumption A1).  Such sample points are skipped by translation validation, and counted."""
+    try:
+        for v in sol.fields().values():
+            if isinstance(v, Vec) or not isinstance(v, sp.Basic): continue
+            for sub in sp.preorder_traversal(v):
+                if sub.is_Pow or isinstance(sub, sp.exp):
+                    try:
+                        val = alg.numeric(sub, pt, 15)
+                        if val.is_real is False: continue
+                        a = abs(val)
+                        if a > sp.Float('1e140') or (a != 0 and a < sp.Float('1e-140')): return True
+                    except Exception:
+                        return True
+    except Exception:
+        return False
+    return False
+
+
 def translation_validation(sc, case, paths, K=3, rtol=1e-8):
     """compare the extracted terms with the real solver at K seeded admissible points.
     returns (points_compared, mismatches[list of str])"""
@@ -136,6 +160,8 @@ def translation_validation(sc, case, paths, K=3, rtol=1e-8):
             continue
         vals = {n: (fieldval(v, pt) if not isinstance(v, Vec) else None) for n, v in p.value.fields().items()} if isinstance(p.value, Solution) else {}
         if any(x in ('complex', 'nan', 'inf') for x in vals.values()): continue     # outside the domain of definition (C20 matter)
+        if isinstance(p.value, Solution) and float_range_risk(p.value, pt):
+            SKIPPED['float_range'] += 1; continue
         if not rs.get('ok'):
             mism.append('real call raised %s (%s) but extracted path returns, at %s' % (rs.get('exc'), rs.get('msg'), jval(pt))); continue
         sol = p.value
